@@ -8,6 +8,8 @@ open Gbo Gbo.Proto Gbo.Spec
 
 structure RunRec where
   req : Option Run.BoolReq := none
+  refA : Option Nat := none             -- the subject was `@j`: the implementation's result of run j
+  refB : Option Nat := none
   implOut : Option MPoly := none        -- the implementation's result (when it answered OK ... MP ...)
   implRaw : String := ""
 deriving Inhabited
@@ -220,7 +222,7 @@ def evalCheck (c0 : CaseSt) (ov : Override) (toks : List String) (rawOv : Nat â†
   | ["operand", w, k] =>
     match k.toNat? with
     | some k =>
-      match operandMP c (w.front) k with
+      match (if w.front == 'R' then res k else operandMP c (w.front) k) with
       | some m => showVerdict (if w.front == 'R' then acceptableOperand m else validOperand m)
       | none => "skip unresolved"
     | none => "skip unresolved"
